@@ -101,3 +101,11 @@ REGISTRY.update({
     "C23": _mc("explicit-state enumeration as C22 x match_segregating_sites x intervals; the count array the real rescale step uses is captured by wrapping the module-level reallocate_unphased and compared with an independent per-tree tally plus fitted phase shares",
                "For every input and phase assignment (s<=5) the per-edge mutation counts that variational_gamma's rescaling step actually uses are recomputed from scratch: all other mutations by direct tally, each unphased singleton contributing q to the edge it is finally placed on and 1-q to its sibling's edge; other edges and all spans unchanged."),
 })
+
+REGISTRY.update({
+    "C19": {"level": "exploration", "technique": "exhaustive enumeration of finite lattices of a continuous domain that contain every branch cut-off of the code (+-0,1,2 ulp); 40-digit mpmath reference and defining-property re-evaluation of each fit",
+            "text": "digamma/trigamma on a 1500/6000-point log lattice of [1e-8,1e8] plus all cut-offs, betaln on 1600 pairs, moment fit on 1600 (mean, cv) pairs, KL fit on 5 means x 64-204 shapes incl. the asymptotic switch, quantile fit on 3 quantile pairs x 14 true shapes x 3 rates x 2 caps (capped, uncapped, x1==x2): each returned gamma is re-evaluated against the property it must satisfy.",
+            "note": "finite lattice; no claim between lattice points; mpmath and scipy.special.gammaincinv (to construct targets) trusted"},
+    "C25": _mc("explicit-state enumeration of inputs x option product; the real rescale step is observed by wrapping the module-level kernels it calls; independent interpolation and direct edge/epoch overlap oracles; complete product of time vectors for mutational_area",
+               "Every bounded ARG x mutation menu x internal-sample decorators x intervals {1,2,3,1000} x iterations {1,5} x segsites x max_shape {3,1000}: breakpoints from (0,0) strictly increasing, each new mean the piecewise-linear image of the old one, no order reversal, shape <= cap, samples untouched; mutational_area equals a direct overlap computation on the observed vectors and on all {0.5,1,2,3}^k vectors."),
+})
